@@ -214,12 +214,13 @@ class Facts:
             self._loopforms[k] = loop_form(self, body)
         return self._loopforms[k]
 
-    def nest_form(self, body, yields=True):
-        """loop_form + adaptor fusion + returned iterator as a yield loop (pk/loopform.py)."""
-        k = (getattr(body, 'key_in_facts', body.path), yields)
+    def nest_form(self, body, yields=True, collects=False):
+        """loop_form + adaptor fusion + returned iterator as a yield loop (pk/loopform.py); collects=True also reads
+        `chain.collect::<Vec<_>>()` as the fill loop it is."""
+        k = (getattr(body, 'key_in_facts', body.path), yields, collects)
         if k not in self._nestforms:
             from .loopform import nest_form
-            self._nestforms[k] = nest_form(self, body, yields=yields)
+            self._nestforms[k] = nest_form(self, body, yields=yields, collects=collects)
         return self._nestforms[k]
 
     def closures_of(self, body):
